@@ -38,6 +38,64 @@ GERR = "pest.grammar.exceptions.PestGrammarError"
 G = z3.Const("grammar_text", z3.StringSort())
 NG = z3.Length(G)
 
+# ---- ghost: kind of the last token emitted (what the grammar Parser's proof, C10 layer 2, assumes of scanner output)
+_KCODES: dict[str, int] = {}
+
+
+def kcode(name: str) -> int:
+    return _KCODES.setdefault(name, len(_KCODES) + 1)
+
+
+INFIX_PREFIX = ("CHOICE_OP", "SEQUENCE_OP", "POSITIVE_PREDICATE", "NEGATIVE_PREDICATE")
+PREFIX = ("POSITIVE_PREDICATE", "NEGATIVE_PREDICATE")
+TERM_END = ("STRING", "STRING_CI", "IDENTIFIER", "RPAREN", "PEEK", "PEEK_ALL", "POP", "POP_ALL", "DROP", "RBRACKET", "CHAR", "OPTION_OP", "REPEAT_OP", "REPEAT_ONCE_OP", "RBRACE")
+TERMINAL_END = ("STRING", "STRING_CI", "IDENTIFIER", "RPAREN", "PEEK", "PEEK_ALL", "POP", "POP_ALL", "DROP", "RBRACKET", "CHAR")
+TERM_START_CTX = ("LBRACE", "LPAREN", "CHOICE_OP", "SEQUENCE_OP")
+TERMINAL_START_CTX = (*TERM_START_CTX, "ASSIGN_OP", "POSITIVE_PREDICATE", "NEGATIVE_PREDICATE")
+
+
+def among(last, names) -> z3.BoolRef:
+    return z3.Or(*[last == kcode(n) for n in names])
+
+
+def okpair(last, kind: str) -> z3.BoolRef:
+    """the adjacency facts: no CHOICE_OP directly after an infix or prefix operator, no TAG directly after a prefix operator"""
+    if kind == "CHOICE_OP":
+        return z3.Not(among(last, INFIX_PREFIX))
+    if kind == "TAG":
+        return z3.Not(among(last, PREFIX))
+    return z3.BoolVal(True)
+
+
+# method -> (precondition on the last kind, postcondition(last0, last1, result))
+def _adj_pre(method: str, last):
+    if method == "accept_expression":
+        return among(last, ("LBRACE", "LPAREN"))
+    if method == "accept_term":
+        return among(last, TERM_START_CTX)
+    if method == "accept_terminal":
+        return among(last, TERMINAL_START_CTX)
+    if method == "accept_postfix_op":
+        return among(last, TERM_END)
+    if method in ("accept_string", "accept_ci_string"):
+        return among(last, (*TERMINAL_START_CTX, "LPAREN"))
+    return z3.BoolVal(True)
+
+
+def _adj_post(method: str, last0, last1, result):
+    if method in ("accept_expression", "accept_term", "accept_postfix_op"):
+        return among(last1, TERM_END)
+    if method == "accept_terminal":
+        return z3.And(z3.Implies(result, among(last1, TERMINAL_END)), z3.Implies(z3.Not(result), last1 == last0))
+    if method == "accept_string":
+        return z3.And(z3.Implies(result, last1 == kcode("STRING")), z3.Implies(z3.Not(result), last1 == last0))
+    if method == "accept_ci_string":
+        return z3.And(z3.Implies(result, last1 == kcode("STRING_CI")), z3.Implies(z3.Not(result), last1 == last0))
+    if method in ("next", "peek", "scan", "scan_until", "skip", "skip_trivia"):
+        return last1 == last0
+    return z3.BoolVal(True)  # state functions, error, emit: nothing promised here (emit sets it to the emitted kind)
+
+
 SCANNER_METHODS = [
     "emit", "next", "peek", "scan", "scan_until", "skip", "skip_trivia", "error", "scan_grammar", "scan_grammar_doc_inner", "scan_grammar_rule",
     "scan_rule_doc_inner", "accept_expression", "accept_term", "accept_terminal", "accept_postfix_op", "accept_string", "accept_ci_string",
@@ -54,8 +112,9 @@ class ScannerModel(FunctionSpec):
         pos, start = run.fresh("pos", "int"), run.fresh("start", "int")
         run.assume(z3.And(0 <= start.t, start.t <= pos.t, pos.t <= NG))
         toks = run.heap.alloc("tokens", {"n": run.fresh("ntokens", "int")}, fresh=False)
-        sc = run.heap.alloc(SCANNER, {"grammar": Sym(G, "str"), "pos": pos, "start": start, "tokens": toks}, fresh=False)
-        run.pre = {"sc": sc, "pos0": pos.t, "start0": start.t}
+        last = run.fresh("last_kind", "int")
+        sc = run.heap.alloc(SCANNER, {"grammar": Sym(G, "str"), "pos": pos, "start": start, "tokens": toks, "$last": last}, fresh=False)
+        run.pre = {"sc": sc, "pos0": pos.t, "start0": start.t, "last0": last.t}
         return sc
 
     def inv(self, run: Run) -> z3.BoolRef:
@@ -82,7 +141,9 @@ class ScannerModel(FunctionSpec):
 
     def call_external(self, run: Run, name: str, args, kwargs, n):
         if name.endswith("regex.compile"):
-            return self.resolve_regex(str(args[0])[:12] if isinstance(args[0], str) else "rx")
+            rx = self.resolve_regex(str(args[0])[:12] if isinstance(args[0], str) else "rx")
+            rx.pattern = args[0] if isinstance(args[0], str) else None
+            return rx
         if name.endswith("frozenset"):
             return ("$set", args[0]) if args else ("$set", ())
         return NotImplemented
@@ -147,7 +208,22 @@ class ScannerModel(FunctionSpec):
         if name == "next":
             run.setf(sc, "pos", wrap(z3.If(pos < NG, pos + 1, pos), "int"))
             return Sym(z3.If(pos < NG, z3.SubString(G, pos, 1), z3.StringVal("")), "str")
+        last = z(o["$last"])
+        run.oblige(f"adj.callee.{name}.requires", _adj_pre(name, last))
         if name == "emit":
+            kind = args[0][1] if isinstance(args[0], tuple) and args[0] and args[0][0] == "$kind" else None
+            run.oblige("adj.emit.kind_is_a_constant", kind is not None)
+            if kind is not None:
+                run.oblige(f"adj.okpair[{kind}]", okpair(last, kind))
+                run.setf(sc, "$last", wrap(z3.IntVal(kcode(kind)), "int"))
+                if kind == "MODIFIER":
+                    import importlib
+
+                    want = importlib.import_module("pest.grammar.scanner").RE_MODIFIER.pattern
+                    src = run.ghost.get("scan_results", {})
+                    v = args[1]
+                    pat = next((p_ for nm_, p_ in src.items() if isinstance(v, Sym) and nm_ in v.t.sexpr()), None)
+                    run.oblige("adj.modifier_value_from_RE_MODIFIER", pat == want, note=f"value from pattern {pat!r}")
             run.setf(sc, "start", wrap(pos, "int"))
             return None
         if name == "error":
@@ -160,10 +236,17 @@ class ScannerModel(FunctionSpec):
         run.setf(sc, "pos", npos)
         run.setf(sc, "start", nstart)
         kind = RETURNS.get(name)
+        nlast = run.fresh(f"last_after_{name}", "int")
+        res_b = run.fresh_t(f"{name}_result", "bool") if kind == "bool" else z3.BoolVal(True)
+        run.assume(_adj_post(name, last, nlast.t, res_b))
+        run.setf(sc, "$last", nlast)
         if kind == "bool":
-            return wrap(run.fresh_t(f"{name}_result", "bool"), "bool")
+            return wrap(res_b, "bool")
         if kind == "optstr":
-            return run.fresh(f"{name}_result", "optstr")
+            r = run.fresh(f"{name}_result", "optstr")
+            if name == "scan" and args and isinstance(args[0], RegexV):
+                run.ghost.setdefault("scan_results", {})[r.t.decl().name()] = getattr(args[0], "pattern", None)
+            return r
         if name.startswith("scan_"):
             return Opaque("statefn")
         return None
@@ -195,6 +278,7 @@ class ScannerMethod(ScannerModel):
 
     def setup(self, run: Run):
         sc = self.mk_scanner(run)
+        run.assume(_adj_pre(self.method, run.pre["last0"]))
         args: list[Any] = []
         if self.method == "emit":
             args = [("$kind", "X"), run.fresh("value", "str")]
@@ -214,19 +298,36 @@ class ScannerMethod(ScannerModel):
     def loops(self):
         spec = self
 
-        def inv(run, g):
-            return [("object_invariant", spec.inv(run)), ("progress", z(run.obj(run.pre["sc"])["pos"]) >= run.pre["pos0"])]
+        # what the loops keep true of the kind of the last emitted token
+        loop_last = {
+            ("skip_trivia", 0): "same", ("accept_string", 0): "same", ("accept_ci_string", 0): "same",
+            ("accept_expression", 0): TERM_END,
+            ("accept_term", 0): (*TERM_START_CTX, "ASSIGN_OP", *PREFIX),
+            ("accept_postfix_op", 0): TERM_END, ("accept_postfix_op", 1): ("LBRACE", "COMMA", "NUMBER"),
+        }
 
-        def modifies(run):
-            sc = run.pre["sc"]
-            return [(sc, "pos"), (sc, "start")]
+        def mk(ordinal):
+            want = loop_last.get((spec.method, ordinal), "same")
 
-        lp = Loop(inv, modifies=modifies)
-        return {0: lp, 1: lp, 2: lp}
+            def inv(run, g):
+                last = z(run.obj(run.pre["sc"])["$last"])
+                adj = last == run.pre["last0"] if want == "same" else among(last, want)
+                return [("object_invariant", spec.inv(run)), ("progress", z(run.obj(run.pre["sc"])["pos"]) >= run.pre["pos0"]), ("adj.last_kind", adj)]
+
+            def modifies(run):
+                sc = run.pre["sc"]
+                return [(sc, "pos"), (sc, "start"), (sc, "$last")]
+
+            return Loop(inv, modifies=modifies)
+
+        return {0: mk(0), 1: mk(1), 2: mk(2)}
 
     def post(self, run: Run, pre: Any, out: Any) -> None:
         run.oblige("invariant", self.inv(run))
         o = run.obj(pre["sc"])
+        if self.method != "emit":
+            res = z(out, "bool") if RETURNS.get(self.method) == "bool" else z3.BoolVal(True)
+            run.oblige("adj.post", _adj_post(self.method, pre["last0"], z(o["$last"]), res))
         if self.method == "peek":
             run.oblige("result", z(out, "str") == z3.If(pre["pos0"] < NG, z3.SubString(G, pre["pos0"], 1), z3.StringVal("")))
             run.oblige("unchanged", z3.And(z(o["pos"]) == pre["pos0"], z(o["start"]) == pre["start0"]))
@@ -357,6 +458,20 @@ TRUSTED = [
 ]
 ASSUMPTIONS = ["partial correctness: termination of the scanner's state loop and recursion depth on nested parentheses are not decided"]
 BOUNDED = ["Parser.from_grammar end to end (grammar Parser's recursive descent, constructors, optimizer, message rendering): corpus of bundled grammars, every truncation, single-character mutations and token soups (quick: ~6k texts; thorough: ~60k) - stand-in, not proved"]
+
+
+# the token-adjacency clauses belong to C10 (they are what its token-layer proof assumes of scanner output)
+DROP_CLAUSES = r"(^|\.)adj\."
+
+
+class ScannerAdjacency(ScannerMethod):
+    """the same executions, kept for their `adj.*` clauses only (used by C10)"""
+
+    keep_clauses = r"(^|\.)adj\."
+
+    def __init__(self, method: str):
+        super().__init__(method)
+        self.label = f"{SCANNER}.{method}[token adjacency]"
 
 
 def specs(tier):
